@@ -4,10 +4,12 @@ import itertools
 from . import core
 
 PID = "C17"
-MANIFEST = dict(text="Theorems reachable_invariant / ops_refine / views_agree / spec_meaning / query_roundtrip: for every initial pair list and every "
+MANIFEST = dict(text="Theorems reachable_invariant / ops_refine / views_agree / spec_meaning / query_roundtrip / update_self_collapses: for every initial pair list and every "
              "operation sequence the dict+list representation of MutableMultiMapping refines a plain ordered pair list and all views "
              "agree with it; the model (dict as ordered association list, MutableMapping mix-in methods) is compared with the live "
-             "class on all operation sequences up to length 2 (thorough 3) from all small initial lists plus random long sequences.",
+             "class on all operation sequences up to length 2 (thorough 3) from all small initial lists plus random long sequences. "
+             "update_self_collapses: m.update(m) (op updself = Update (d s)) leaves the dict unchanged and every key with exactly one "
+             "pair carrying its last value (keys stay at the place of their first pair in the old pair list).",
         note="Modelled, not verified: Python dict ordering, the collections.abc.MutableMapping mix-in. "
              "query_roundtrip (parse_qsl inverts urlencode, ASCII keys and values) is the theorem of the URL model (C18), re-stated here; "
              "non-ASCII query text is covered by C18's correspondence only.",
@@ -24,7 +26,13 @@ TRUSTED = ["model of Python's insertion-ordered dict as an association list and 
            "tools/py2coq.py (Python ast -> Gallina, fail-closed; self._list a list of pairs and self._dict an insertion-ordered "
            "dict that are threaded and returned, == on keys an argument) and coq/theories/Lib/PyList.v (the meaning given to "
            "comprehensions, enumerate, reversed, item assignment and deletion, dict get/set/del; compared with the interpreter's "
-           "own list and dict on every run); theorems <method>_translated in C17/Translated.v, re-checked per method on every run"]
+           "own list and dict on every run); theorems <method>_translated in C17/Translated.v, re-checked per method on every run",
+           "second source-level tie (tools/py2coq_c17.py, C17/TranslatedMore.v): MultiMapping.__init__ / __getitem__ / __iter__ / "
+           "__len__ / multi_items translated from the current source; the argument of __init__ is one of four shapes (None, "
+           "another MultiMapping, a Mapping, an iterable of pairs: C17/PyLib.v raw) and the collections.abc.MutableMapping mix-in "
+           "methods pop / popitem / clear / update / setdefault are C17/PyLib.v mm_* (CPython's definitions over the translated "
+           "__getitem__ / __setitem__ / __delitem__ / __iter__), both compared with the running interpreter on every run; "
+           "theorems *_translated, tstep_model, translated_invariant re-checked on every run"]
 ASSUMPTIONS = ["keys are hashable with value equality (ints in the cases)"]
 EXHAUSTIVE = {"quick": True, "thorough": True}
 
@@ -430,13 +438,27 @@ def extra_obligations(tier):
     keys an argument), and coqc re-checks, per method, the part of C17/Translated.v about it (translated method = the
     function of C17.Model for every key, value, pair list and dict: same _list and _dict afterwards, same result, KeyError
     exactly when the model says so) against the fresh definitions.  One obligation per method: a method the translator
-    refuses (not applicable, no alarm) does not hide the others."""
+    refuses (not applicable, no alarm) does not hide the others.
+    In addition (tools/py2coq_c17.py, C17/TranslatedMore.v): MultiMapping.__init__ (every argument shape), __getitem__,
+    __iter__, __len__, multi_items are translated the same way and coqc re-checks that each equals M.init / the views of
+    C17.Model, that the MutableMapping mix-in methods (C17/PyLib.v mm_pop, mm_popitem, mm_clear, mm_update_*,
+    mm_setdefault) over the TRANSLATED __getitem__ / __setitem__ / __delitem__ / __iter__ equal M.step on Pop / PopDefault /
+    PopItem / Clear / Update / SetDefault for every state, and translated_invariant (from __init__ on any argument, after any
+    sequence of the translated operations, _dict is the last-value view of _list); C17/PyLib.v is compared with the
+    interpreter's dict, isinstance, Mapping.items and MutableMapping mix-in."""
     import importlib.util
     import os
     spec = importlib.util.spec_from_file_location("py2coq", os.path.join(core.VERIF, "tools", "py2coq.py"))
     py2coq = importlib.util.module_from_spec(spec)
     spec.loader.exec_module(py2coq)
-    return py2coq.obligations(PID, core.REPO, core.VERIF)
+    spec = importlib.util.spec_from_file_location("py2coq_c17", os.path.join(core.VERIF, "tools", "py2coq_c17.py"))
+    more = importlib.util.module_from_spec(spec)
+    spec.loader.exec_module(more)
+    from concurrent.futures import ThreadPoolExecutor
+    with ThreadPoolExecutor(2) as ex:
+        a = ex.submit(py2coq.obligations, PID, core.REPO, core.VERIF)
+        b = ex.submit(more.obligations, core.REPO, core.VERIF)
+        return list(a.result()) + list(b.result())
 
 
 if __name__ == "__main__":
